@@ -189,3 +189,41 @@ def response_owns_its_body(ctx):
                           "the respondent reuses (clears and refills in place) the object stored here: a response read after the next "
                           "one was parsed shows the later response's %s" % const_str(t.elts[0]))
     ctx.floor("T4-alias:entries", n, 2)
+    chunked_before_length(ctx)
+
+
+def chunked_before_length(ctx):
+    """Transfer-Encoding: chunked decides the body framing before any length does (RFC 7230 3.3.3; parseHead forces length 0 for
+    204/304/HEAD even when the response is chunked): the chunk reader runs iff .chunked, the fixed-length read only when not"""
+    from ..rules import group_condition, formula_equiv
+    ctx.rule("T3-framing-order", "parseBody: chunk parsing iff self.chunked; fixed-length read only if not chunked")
+    for modn, cn in (("aio.http.clienting", "Respondent"), ("aio.http.serving", "Requestant")):
+        f = ctx.cls(modn, cn).own_method("parseBody")
+        V = FuncView(ctx, f)
+        ch = V.need(V.call_nodes("httping.parseChunk"), "parseChunk(...) in %s.parseBody" % cn)
+        ch = [min(ch, key=lambda n: getattr(n.ast, "lineno", 0))]      # entry into the chunk reader (later calls sit in its loops)
+        fx = [n for n in V.cfg.nodes if isinstance(n.ast, ast.Assign) and dotted(n.ast.targets[0]) == "self.body" and
+              src(n.ast.value) == "self.msg[:self.length]"]
+        V.need(fx, "fixed-length read in %s.parseBody" % cn)
+        # measured from the point both framings share (after the already-parsed / bad-length guards and the body reset)
+        both = group_condition(V, ch + fx, by_value=False)
+        from ..rules import formula_implies
+        okc = formula_implies(group_condition_from(V, ch, ch + fx), "self.chunked")
+        okf = formula_implies(group_condition_from(V, fx, ch + fx), "not self.chunked")
+        ctx.check(okc and okf, "T3-framing-order", f, "%s.parseBody: chunks iff chunked; msg[:length] only when not chunked" % cn,
+                  "a response that is chunked *and* has a (forced) length - 204/304/HEAD answered by a server that chunks everything - "
+                  "leaves its terminating `0 CRLF CRLF` in the buffer: the next response on the connection starts with it and is garbled")
+
+
+def group_condition_from(view, nodes, group):
+    """condition of `nodes`, measured from the nearest common dominator of the larger `group`"""
+    from ..rules import path_condition
+    cfg = view.cfg
+    ids = {n.id for n in group}
+    cands = [d for d in cfg.nodes if d.id not in ids and all(n.id in cfg.reachable(d.id) and view.dominated([n], [d]) for n in group)]
+    best = None
+    for d in cands:
+        if all(o.id == d.id or view.dominated([d], [o]) for o in cands):
+            best = d
+    start = [best.id] if best is not None else [cfg.entry.id]
+    return ("or", [path_condition(view, n, start=start, by_value=False) for n in nodes])
